@@ -403,7 +403,9 @@ func createUpstreamRequest(rw http.ResponseWriter, r *http.Request) (*http.Reque
 	// important is "Connection" because we want a persistent
 	// connection, regardless of what the client sent to us.
 	for _, h := range hopHeaders {
-		if outreq.Header.Get(h) != "" {
+		// presence decides, not the value: "TE:" with an empty value is
+		// still a hop-by-hop field
+		if _, ok := outreq.Header[h]; ok {
 			if !copiedHeaders {
 				outreq.Header = make(http.Header)
 				copyHeader(outreq.Header, r.Header)
